@@ -101,3 +101,36 @@ Proof. exists gdb, gops3. repeat split; vm_compute; reflexivity. Qed.
 (* children() on a plain Aggregator is an AttributeError *)
 Example children_needs_grid : run_gops current false true gdb [GChildren] = Err EAttr.
 Proof. vm_compute. reflexivity. Qed.
+
+(* ----- the proposed repair of slicing (run_gops_s): a slice survives later operations, a step is honoured ----- *)
+Definition sops1 := [GOrder OIdKey false; GSlice (Some 1%Z) (Some 5%Z) None; GQuery p_cell].
+Example slicefix_query_after_slice :
+  (exists l k, run_gops_s current false false gdb sops1 = Ok (l, k) /\ map fid l = ["c1"; "c2"; "c3"; "d0"]) /\
+  (exists l k, run_gops current false false gdb sops1 = Ok (l, k) /\ map fid l = ["c0"; "c1"; "c2"; "c3"; "d0"]).
+Proof. split; eexists; eexists; split; vm_compute; reflexivity. Qed.
+Definition sops2 := [GOrder OIdKey false; GSlice None None (Some (-2)%Z)].
+Example slicefix_negative_step :
+  (exists l k, run_gops_s current false false gdb sops2 = Ok (l, k) /\ map fid l = ["x0"; "g0"; "c3"; "c1"]) /\
+  (exists l k, run_gops current false false gdb sops2 = Ok (l, k) /\ List.length l = 8%nat).
+Proof. split; eexists; eexists; split; vm_compute; reflexivity. Qed.
+Definition sops3 := [GGrid; GSlice (Some 1%Z) None None; GChildren; GOrder OIdKey false].
+Example slicefix_children_of_slice :
+  (exists l k, run_gops_s current false false gdb sops3 = Ok (l, k) /\ map fid l = ["d0"]) /\
+  (exists l k, run_gops current false false gdb sops3 = Ok (l, k) /\ map fid l = ["c0"; "c1"; "c2"; "c3"; "d0"]).
+Proof. split; eexists; eexists; split; vm_compute; reflexivity. Qed.
+(* the hypotheses of C10_slicefix_freeze_exact hold of a state that carries a slice *)
+Example freeze_nonvacuous :
+  exists st, fold_gops_s current false gdb (g_init false) [GOrder OIdKey false; GSlice (Some 1%Z) (Some 5%Z) None] = Ok st /\
+             has_slice st = true /\ keys_total (g_keys st) = true /\
+             map fid (g_fits current gdb (freeze current gdb st)) = ["c1"; "c2"; "c3"; "d0"].
+Proof. eexists. repeat split; vm_compute; reflexivity. Qed.
+Example stepped_nonvacuous :
+  exists st st', fold_gops_s current false gdb (g_init false) [GOrder OIdKey false] = Ok st /\
+     gop_step_s current false gdb st (GSlice (Some 1%Z) None (Some 3%Z)) = Ok st' /\
+     map fid (g_fits current gdb st') = ["c1"; "d0"; "x0"].
+Proof. eexists. eexists. repeat split; vm_compute; reflexivity. Qed.
+Example stepped_neg_nonvacuous :
+  exists st st', fold_gops_s current false gdb (g_init false) [GOrder OIdKey false] = Ok st /\
+     gop_step_s current false gdb st (GSlice None (Some 2%Z) (Some (-2)%Z)) = Ok st' /\
+     map fid (g_fits current gdb st') = ["x0"; "g0"; "c3"].
+Proof. eexists. eexists. repeat split; vm_compute; reflexivity. Qed.
